@@ -248,6 +248,9 @@ def gen_lines(rng, cv, count):
             if rng.chance(1, 3):
                 tab = tab[:rng.below(tl + 1)]            # missing entries are the identity
             out.append("epfixt %s %s %s" % (v, hx(scalar(rng, cv.n, cls, cv)), ";".join(ptok(rng, cv, T, "") for T in tab) or "inf"))
+    # long lists for ep_mul_sim_lot in the compact form (the windows of the interleaved / bucket branches change with the number of points)
+    for n_ in ((11, 31, 32, 33) if count < 1000 else (11, 16, 31, 32, 33, 40, 64)):
+        out.append("eplc %d %s %x %x" % (n_, ptok(rng, cv, rng.choice(pool), ""), rng.bits(256) % cv.n, rng.bits(256) % cv.n))
     for v in SIM:
         for cls in range(NCLASS):
             out.append("eps %s %s %s %s %s" % (v, ptok(rng, cv, rng.choice(pool)), hx(scalar(rng, cv.n, cls, cv)),
